@@ -119,7 +119,7 @@ CHECKS["C13"] = dict(
 CHECKS["C16"] = dict(
     engine="pbt",
     category="exploration",
-    text="Generated pairs and triples of tuples correlated by construction (equal prefix, then differ; integers at byte-length and sign boundaries; strings/bytes with NUL, 0xff, empty, prefix pairs) under generated schemas, for both formats: encoded order equals tuple order with per-element direction, extensions stay contiguous, decode(encode) is the identity (parser, iterator, schema, derive), and arbitrary or mutated bytes never panic the decoders. An exhaustive family of 219 024 short descending-string pairs pins down known finding R-N exactly. Extension APIs (append / extend / builders) must be byte-identical to from-scratch encodings; derived TryFrom<TupleKey> on damaged and arbitrary bytes; u8 / u16 / i8 / i16 elements of tuple_key2 with cross-width parsers.",
+    text="Generated pairs and triples of tuples correlated by construction (equal prefix, then differ; integers at byte-length and sign boundaries; strings/bytes with NUL, 0xff, empty, prefix pairs) under generated schemas, for both formats: encoded order equals tuple order with per-element direction, extensions stay contiguous, decode(encode) is the identity (parser, iterator, schema, derive), and arbitrary or mutated bytes never panic the decoders. An exhaustive family of 219 024 short descending-string pairs pins down known finding R-N exactly. Extension APIs (append / extend / builders) must be byte-identical to from-scratch encodings; derived TryFrom<TupleKey> on damaged and arbitrary bytes; u8 / u16 / i8 / i16 elements of tuple_key2 with cross-width parsers. After an error the tuple_key2 parser is asked for offset, remaining, is_empty and finish (no panic).",
     design_ref="DESIGN.md §5 C16",
     note="tuple_key has no bytes type and fixed-width integers; tuple_key2 has no directions; tuples are compared under identical schemas only. R-N (descending strings in tuple_key) is excluded by an independent predicate and counted.",
     technique="property-based testing (proptest) with order / round-trip oracles and a small exhaustive family",
